@@ -90,7 +90,7 @@ Qed.
 (* ---------- Tree.collapse_basal_bifurcation ---------- *)
 Lemma addlen_try_supp keep del :
   ~ (keep = None /\ del <> None) -> addlen_try keep del = addlen_supp keep del.
-Proof. destruct keep, del; simpl; intros H; try reflexivity. exfalso. apply H. split; [reflexivity | discriminate]. Qed.
+Proof. destruct keep, del; simpl; intros H; try reflexivity; exfalso; apply H; split; [reflexivity | discriminate]. Qed.
 
 (* keep the first child, dissolve the second *)
 Lemma collapse_second i x l e c0 i1 x1 l1 e1 K1 :
